@@ -4,7 +4,7 @@ import os, shutil, subprocess, tempfile
 from concurrent.futures import ThreadPoolExecutor
 
 HERE = os.path.dirname(os.path.dirname(os.path.abspath(__file__)))
-PROPS = ["C%02d" % i for i in range(1, 21)]
+PROPS = os.environ.get("OPTYX_PROPS", "").split() or ["C%02d" % i for i in range(1, 21)]   # OPTYX_PROPS="C04 C06": a targeted run
 
 
 def run_patch(patch):
